@@ -75,6 +75,12 @@ CLAIM = dict(
           "Validated by which stream: single calls, history steps and scale cases all go through the same oracles "
           "(wellFormedFill/isFillPkts, regionsOK, resendOK, postOkCore/postErrCore with staleMasks/staleHides, "
           "startOnceOK, trace/outcome/state equality with both controller models, simulator = machine specification); "
+          "resendOnlyOK (a (re-)send goes only to requested cores that do not hold their binary at that moment) is "
+          "evaluated on every fill whatever the pre-state - proved for the model without PreClean "
+          "(resend_only_without_preclean) - so a core loaded by an earlier call (same binary, same app id, still "
+          "waiting) that is re-sent or named by the error is resend-inexact / error-inexact, not a stale-waiter known "
+          "finding (staleHides requires that the core did NOT hold its binary); generators: pre-mode already-loaded "
+          "and the history twin 'grow' put such cores next to unloaded ones on chips that then miss fills; "
           "what the error SHOWS is verdict-bearing like what it carries: the cores parsed out of str(error) (every "
           "integer triple after 'Failed to load applications to cores'), out of repr(error) (the printed map) and out "
           "of error.args are judged by the same oracle postErrCore whenever they differ from error.app_map (key "
@@ -111,7 +117,8 @@ THEOREMS = ["nnid_range", "fill_wellformed", "fill_loads_exactly", "attempts_bou
             "count_cores_sum", "count_cores_invalid", "wait_returns_count", "wait_terminates_under_clock_progress",
             # the stale-waiter findings, sharply (Props/C09Stale.lean)
             "postOk_false_iff", "count_masks", "load_sound_iff_preclean_needed",
-            "postErr_false_iff", "load_error_iff_preclean_needed"]
+            "postErr_false_iff", "load_error_iff_preclean_needed",
+            "namedInv_resendOnly", "resend_only_without_preclean"]
 THEOREMS += ['gen_get_next_nn_id']   # translator tie: generated function bodies = model (Props/C09Gen.lean)
 
 RULE = ("cases = (machine of 1-40 chips: rectangles at several origins incl. aligned 4x4/8x8 blocks, scattered chips up to "
@@ -454,7 +461,7 @@ def gen_case(rng, overflow=False, chips=None, buf=None, n_apps=None):
     # pre-existing cores
     pre = {}
     pre_mode = rng.choice(["none", "none", "none", "other-app", "stale-other-core", "stale-requested", "mixed",
-                           "stale-vs-missed", "stale-vs-missed"])
+                           "stale-vs-missed", "stale-vs-missed", "already-loaded", "already-loaded"])
     all_cores = [(x, y, p) for (x, y) in chips for p in range(18)]
     requested = sorted(used)
 
@@ -490,6 +497,26 @@ def gen_case(rng, overflow=False, chips=None, buf=None, n_apps=None):
         missed = [[lost] for _ in range(max_fills)]
         mode = "one-chip"
         force_count = rng.random() < 0.8
+    if pre_mode == "already-loaded":
+        # some requested cores already hold THEIR binary under THIS app id and wait (an earlier load of the same
+        # map), next to cores of the same chip that do not; chips of such cores then miss fills: the loaded cores
+        # must not be sent the binary again nor be named by the error
+        partly = []
+        for a in apps:
+            if len(a["image"]) > 300:
+                continue
+            for x, y, cs in a["targets"]:
+                if len(cs) >= 2 and len(partly) < 3 and rng.random() < 0.7:
+                    n_loaded = rng.randrange(1, len(cs))
+                    loaded_cs = cs[-n_loaded:] if rng.random() < 0.6 else rng.sample(cs, n_loaded)
+                    for p in loaded_cs:
+                        pre[(x, y, p)] = [x, y, p, WAIT, app_id, list(a["image"])]
+                    partly.append([x, y])
+        if partly and rng.random() < 0.8:
+            style = rng.choice(["every", "first", "some"])
+            missed = [[c for c in partly if style == "every" or (style == "first" and i < n_apps) or rng.random() < 0.5]
+                      for i in range(max_fills)]
+            mode = "loaded-chips-" + style
     if pre_mode in ("stale-requested", "mixed") and requested:
         for core in rng.sample(requested, min(len(requested), rng.randrange(1, 3))):
             put(core, WAIT, rng.choice([app_id, app_id, app_id % 255 + 1]))
@@ -1264,6 +1291,14 @@ def judge(ctx, case, res, kinds, rs, n_fills, k, stale=None, payload=None):
             if not r["ok"]:
                 ctx.violation("resend-inexact", "a flood fill was sent to a map that is not the still-unloaded part of the request", payload)
                 break
+    # whatever was on the machine before the call: a (re-)send never goes to a core that was not requested for that
+    # binary nor, after the first attempt, to a core that holds its binary at that moment (Lean: resendOnlyOK on the
+    # core states at the start packet) - "re-send only to the cores still missing"
+    for i, r in enumerate(by.get("resend", [])):
+        if not r.get("only", True):
+            ctx.violation("resend-inexact", "fill %d was (re-)sent to cores that are not requested for its binary or "
+                          "that already hold it (loaded by an earlier attempt or an earlier call)" % i, payload)
+            break
     if not case.get("only_fill") and n_fills > (case["n_tries"] + 1) * len(case["apps"]):
         ctx.violation("too-many-attempts", "%d fills for %d binaries with n_tries=%d" % (n_fills, len(case["apps"]), case["n_tries"]), payload)
     if "post" in by and outcome != "ok":
@@ -1705,7 +1740,7 @@ def gen_twin(rng, prev, chips, buf):
         step.pop(key, None)
     aspects = ["same", "wait", "mode", "app_id", "n_tries", "kinds", "call", "delay", "only_fill"]
     if step["apps"]:
-        aspects += ["core", "core", "chip", "image", "image"]
+        aspects += ["core", "core", "chip", "image", "image", "grow", "grow", "grow"]
     aspect = rng.choice(aspects)
     apps = step["apps"]
     used = {(x, y, p) for a in apps for x, y, cs in a["targets"] for p in cs}
@@ -1740,6 +1775,21 @@ def gen_twin(rng, prev, chips, buf):
         elif full:
             t = rng.choice(full)
             t[2].remove(rng.choice(t[2]))
+    elif aspect == "grow":
+        # the same map again (same binaries, same app id) with more cores on chips it already uses, some of which
+        # then miss fills: what the earlier call loaded and left waiting is loaded, the new cores are not
+        grown = []
+        for a in apps:
+            for t in a["targets"]:
+                free = [p for p in range(18) if (t[0], t[1], p) not in used]
+                if free and len(grown) < 3 and rng.random() < 0.6:
+                    add = rng.sample(free, min(len(free), rng.randrange(1, 3)))
+                    used.update((t[0], t[1], p) for p in add)
+                    t[2] = sorted(t[2] + add)
+                    grown.append([t[0], t[1]])
+        if rng.random() < 0.6:
+            prev["wait"] = True                      # (the earlier call of the pair leaves its cores waiting)
+        step["grown"] = grown
     elif aspect == "chip":
         a = rng.choice(apps)
         if a["targets"]:
@@ -1752,6 +1802,13 @@ def gen_twin(rng, prev, chips, buf):
             a["image"] = gen_image(rng, buf, False)
     n_fills = (min(step["n_tries"], 3) + 1) * len(apps)
     step["missed"], step["missed_mode"] = gen_missed(rng, chips, n_fills)
+    if step.pop("grown", None) and rng.random() < 0.7:
+        lost = [c for c in dedup(grown) if rng.random() < 0.7] or grown[:1]
+        every = rng.random() < 0.5
+        step["missed"] = [lost if every or i < len(apps) else [] for i in range(min(n_fills, 12))]
+        step["missed_mode"] = "grown-chips"
+        if rng.random() < 0.5:
+            step["use_count"] = False
     step["twin"] = aspect
     return step
 
@@ -1858,17 +1915,17 @@ def run(ctx):
                  stale_more_case(1), stale_more_case(2), stale_more_case(3), stale_more_case(5)]
         cases += [big_buffer_case(b, uc) for b in (128, 260, 512, 1024) for uc in (True, False)]
         cases += [shared_chip_error_case(uc, n) for n in (2, 3, 4) for uc in (True, False)]
-        n = ctx.scale(180, 2200)
+        n = ctx.scale(150, 2200)
         if ctx.extended:
             n *= 4
         for i in range(n):
             cases.append(gen_case(ctx.rng, overflow=(i % 97 == 50)))
         # histories: 2-6 calls on one machine through one or two controllers (twins, edited maps, faults), one
         # (thorough: three) of more than 130 fills; a handful of cases far beyond the usual size
-        nh = ctx.scale(40, 450) * (4 if ctx.extended else 1)
+        nh = ctx.scale(32, 450) * (4 if ctx.extended else 1)
         cases += [gen_history(ctx.rng) for _ in range(nh)]
         cases += [gen_history(ctx.rng, long_run=True) for _ in range(ctx.scale(1, 3))]
-        cases += scale_cases(ctx.rng, ctx.scale(2, 4))
+        cases += scale_cases(ctx.rng, ctx.scale(1, 4))
         if not ctx.quick:
             cases += exhaustive_missed()
         for i in range(0, len(cases), 50):
